@@ -103,6 +103,13 @@ func ReplayMain(path string, quiet bool) int {
 		fmt.Fprintln(os.Stderr, err)
 		return 2
 	}
+	if strings.HasPrefix(v.Key, "race|") {
+		rc := replayRace(v)
+		if rc == 1 {
+			fmt.Printf("VIOLATION property=%s replay=%s\n", v.Property, path)
+		}
+		return rc
+	}
 	chk := Lookup(v.Property)
 	if chk == nil || chk.Replay == nil {
 		fmt.Fprintf(os.Stderr, "no replay for %s\n", v.Property)
@@ -300,6 +307,9 @@ func CheckMain(id, tier string, seed int64, only string, shardsOverride int) int
 		}
 		return nil
 	}
+	if only == "" {
+		merged.Violations = append(merged.Violations, raceViolations(id)...)
+	}
 	sort.SliceStable(merged.Violations, func(i, j int) bool { return merged.Violations[i].Key < merged.Violations[j].Key })
 	printedKnown := map[string]bool{}
 	newByKey := map[string]Violation{}
@@ -338,7 +348,8 @@ func CheckMain(id, tier string, seed int64, only string, shardsOverride int) int
 		vb, _ := json.MarshalIndent(v, "", " ")
 		path := filepath.Join(repDir, ShortHash([]byte(v.Key))+".json")
 		os.WriteFile(path, vb, 0o644)
-		if chk.Replay == nil {
+		if chk.Replay == nil || strings.HasPrefix(v.Key, "race|") {
+			// (a race detector report is a fact about an execution that happened; it is not re-confirmed)
 			fmt.Printf("violation: property=%s key=%s %s\n", v.Property, v.Key, v.What)
 			fmt.Printf("VIOLATION property=%s replay=%s\n", v.Property, path)
 			exit = 1
@@ -441,11 +452,9 @@ func CheckMain(id, tier string, seed int64, only string, shardsOverride int) int
 		if b, err := os.ReadFile(p); err == nil {
 			var rp map[string]any
 			if json.Unmarshal(b, &rp) == nil {
-				rp["note"] = "separate free-running -race build of concurrent storage-backend use and concurrent renders; samples schedules, supporting evidence only"
+				rp["note"] = "separate free-running -race build (concurrent storage-backend use, concurrent operations on one release over one shared driver, concurrent renders); samples schedules: silence is supporting evidence only, a report is a violation (key race|<body>)"
+				delete(rp, "output")
 				cov["race_pass"] = rp
-				if n, _ := rp["race_reports"].(float64); n > 0 {
-					fmt.Printf("RACE-PASS: the race detector reported %d data race(s); see bin/racepass.out (supporting evidence, not part of the exhaustive verdict)\n", int(n))
-				}
 			}
 		}
 	}
